@@ -25,28 +25,38 @@ import (
 )
 
 // opsPoint is one printed point of Ops.tla.
+type opsRes struct {
+	Ok  bool   `json:"ok"`
+	Why string `json:"why"`
+	Ty  string `json:"ty"`
+	C   struct {
+		K string `json:"k"`
+		Q struct {
+			N int64 `json:"n"`
+			D int64 `json:"d"`
+		} `json:"q"`
+		S string `json:"s"`
+		B bool   `json:"b"`
+	} `json:"c"`
+}
+
 type opsPoint struct {
 	Family string `json:"-"`
 	Op     string `json:"op"`
 	X      string `json:"x"`
 	Y      string `json:"y"`
-	R      struct {
-		Ok  bool   `json:"ok"`
-		Why string `json:"why"`
-		Ty  string `json:"ty"`
-		C   struct {
-			K string `json:"k"`
-			Q struct {
-				N int64 `json:"n"`
-				D int64 `json:"d"`
-			} `json:"q"`
-			S string `json:"s"`
-			B bool   `json:"b"`
-		} `json:"c"`
-	} `json:"r"`
+	R      opsRes `json:"r"`
+	// nested family: (IX IOp IY) Op Y; X is the text of the inner expression, Inner its predicted outcome
+	IOp   string `json:"iop,omitempty"`
+	IX    string `json:"ix,omitempty"`
+	IY    string `json:"iy,omitempty"`
+	Inner opsRes `json:"inner"`
 }
 
 func (p opsPoint) text() string {
+	if strings.HasPrefix(p.X, "#") && p.IX != "" {
+		return p.IX // a nested point passed on as a class: IX carries the full text
+	}
 	switch p.Family {
 	case "unary":
 		return p.Op[1:] + p.X
@@ -147,22 +157,56 @@ func constString(v constant.Value) string {
 }
 
 // specOutcome converts the point's verdict.
-func (p opsPoint) specOutcome() opsOutcome {
-	if !p.R.Ok {
-		return opsOutcome{Kind: "reject", Msg: p.R.Why}
+func (p opsPoint) specOutcome() opsOutcome { return p.R.outcome() }
+
+func (r opsRes) outcome() opsOutcome {
+	if !r.Ok {
+		return opsOutcome{Kind: "reject", Msg: r.Why}
 	}
-	o := opsOutcome{Kind: "ok", Type: opsTypeName(p.R.Ty)}
-	switch p.R.C.K {
+	o := opsOutcome{Kind: "ok", Type: opsTypeName(r.Ty)}
+	switch r.C.K {
 	case "num":
-		o.Const = ratString(p.R.C.Q.N, p.R.C.Q.D)
+		o.Const = ratString(r.C.Q.N, r.C.Q.D)
 	case "str":
-		o.Const = "str:" + p.R.C.S
+		o.Const = "str:" + r.C.S
 	case "bool":
-		o.Const = fmt.Sprint(p.R.C.B)
+		o.Const = fmt.Sprint(r.C.B)
 	case "skip":
 		o.Const = "?"
 	}
 	return o
+}
+
+// operandClassOf is the operand class of an expression's outcome used as an operand (for finding keys of nested points)
+func (r opsRes) operandClass() string {
+	switch {
+	case r.C.K == "" || r.C.K == "none":
+		return "#var:" + opsTypeName(r.Ty)
+	case !strings.HasPrefix(r.Ty, "ut"):
+		return "#tconst:" + opsTypeName(r.Ty)
+	}
+	switch r.Ty {
+	case "utint":
+		if r.C.Q.N == 0 {
+			return "#uconst:int(zero)"
+		}
+		return "#uconst:int"
+	case "utfloat":
+		switch {
+		case r.C.Q.N == 0:
+			return "#uconst:float(zero)"
+		case r.C.Q.D == 1:
+			return "#uconst:float(integral)"
+		}
+		return "#uconst:float(fractional)"
+	case "utrune":
+		return "#uconst:rune"
+	case "utstring":
+		return "#uconst:string"
+	case "utbool":
+		return "#uconst:bool"
+	}
+	return "#" + r.Ty
 }
 
 // ---- T: types.Eval on the reference text --------------------------------------------------------------
@@ -299,6 +343,12 @@ func (b *opsBuilder) build(p opsPoint) (o opsOutcome) {
 		cb.Typ(T)
 		b.push(p.X)
 		cb.Call(1)
+	case "nested":
+		b.push(p.IX)
+		b.push(p.IY)
+		cb.BinaryOp(opsTokens[p.IOp])
+		b.push(p.Y)
+		cb.BinaryOp(opsTokens[p.Op])
 	default:
 		b.push(p.X)
 		b.push(p.Y)
@@ -336,6 +386,8 @@ func isForeignPanic(s string) bool {
 
 func opsOperandClass(src string) string {
 	switch {
+	case strings.HasPrefix(src, "#"): // class given directly (result of an inner expression)
+		return src[1:]
 	case strings.HasPrefix(src, "v_"):
 		return "var:" + src[2:]
 	case src == "c_i8":
@@ -397,7 +449,9 @@ func opsOpClass(p opsPoint) string {
 	return "logical"
 }
 
-func opsIsConst(src string) bool { return !strings.HasPrefix(src, "v_") && src != "nil" }
+func opsIsConst(src string) bool {
+	return !strings.HasPrefix(src, "v_") && !strings.HasPrefix(src, "#var:") && src != "nil"
+}
 
 // opsRun enumerates all families and calls handle for every point with the three outcomes.
 // S != T aborts (specification defect).
@@ -407,7 +461,11 @@ func opsRun(run *ev.Run, tier string, handle func(p opsPoint, s, g opsOutcome)) 
 		run.Infra(err)
 	}
 	var mu sync.Mutex
-	for _, fam := range []string{"binary", "unary", "shift", "conv"} {
+	fams := []string{"binary", "unary", "shift", "conv"}
+	if tier == "thorough" {
+		fams = append(fams, "nested")
+	}
+	for _, fam := range fams {
 		var pts []opsPoint
 		cfg := fmt.Sprintf("INIT Init\nNEXT Next\nCONSTANT Family = %q\nINVARIANTS Laws Emit\nCHECK_DEADLOCK FALSE\n", fam)
 		res, err := tlc.Run(tlc.Opts{SpecDir: SpecDir, Module: "Ops", Cfg: cfg, Workers: 4, Heavy: fam == "binary", Timeout: 20 * time.Minute,
@@ -457,6 +515,24 @@ func opsRun(run *ev.Run, tier string, handle func(p opsPoint, s, g opsOutcome)) 
 					if s.Const == "?" || s.Type == "skip" {
 						continue
 					}
+					if p.Family == "nested" {
+						// judge the outer operator only where the inner expression is agreed (its disagreements are the
+						// binary family's findings); the inner result's class stands for the operand in the finding key
+						is := p.Inner.outcome()
+						ig := b.build(opsPoint{Family: "binary", Op: p.IOp, X: p.IX, Y: p.IY})
+						if is.Kind != "ok" || ig.Kind != "ok" || is.Type != ig.Type || is.Const != ig.Const {
+							continue
+						}
+						g := b.build(p)
+						mu.Lock()
+						points++
+						mu.Unlock()
+						q := p
+						q.Family, q.X = "binary", p.Inner.operandClass()
+						nestedText := p.text()
+						handleNested(q, s, g, nestedText, handle)
+						continue
+					}
 					g := b.build(p)
 					mu.Lock()
 					points++
@@ -468,4 +544,10 @@ func opsRun(run *ev.Run, tier string, handle func(p opsPoint, s, g opsOutcome)) 
 		wg.Wait()
 	}
 	return
+}
+
+// handleNested passes a nested point to the classifier as a binary point whose left operand is a class
+func handleNested(q opsPoint, s, g opsOutcome, text string, handle func(p opsPoint, s, g opsOutcome)) {
+	q.IX = text // kept for messages: opsPoint.text() of a class operand is not Go
+	handle(q, s, g)
 }
